@@ -23,12 +23,18 @@ type FieldSpec struct {
 	Name     string
 	Min, Max int
 	Class    string
+	Split    bool // engine hint: explore each length of this field on its own path
 }
 
 // F declares a template field: a string of Min..Max bytes drawn from Class (regexp class syntax,
 // "" = any byte).
 func F(name string, min, max int, class string) FieldSpec {
-	return FieldSpec{name, min, max, class}
+	return FieldSpec{name, min, max, class, false}
+}
+
+// FS is F with a case split on the field's length.
+func FS(name string, min, max int, class string) FieldSpec {
+	return FieldSpec{name, min, max, class, true}
 }
 
 type Tmpl struct {
@@ -284,3 +290,6 @@ func Unix(sec int) time.Time { return time.Unix(1700000000+int64(sec), 0) }
 // AssertEqStr asserts a == b (the engine first tries the cheaper sufficient condition that both
 // are the same window of one buffer).
 func AssertEqStr(id string, a, b string) { Assert(id, a == b) }
+
+// TimeLE reports a <= b (not b.Before(a)).
+func TimeLE(a, b time.Time) bool { return !b.Before(a) }
